@@ -76,6 +76,8 @@ def observed(g):
     links = Counter()
     link_list = []
     for l in g.dovetails:
+        if l.virtual:
+            continue  # a placeholder for a link some path requires: not a declared link
         rec = G.split_line(O.line_text(l), "gfa1")
         links[linkkey(rec.pos, rec.tags)] += 1
         link_list.append(rec)
@@ -94,7 +96,12 @@ def prop(case):
     model = M.ModelDoc.from_doc(doc)
     recs = model.recs
     try:
-        g = gfapy.Gfa(lines, version="gfa1", vlevel=case.get("vlevel", 1))
+        if case.get("incremental"):
+            g = gfapy.Gfa(version="gfa1", vlevel=case.get("vlevel", 1))
+            for l_ in lines:
+                g.add_line(l_)
+        else:
+            g = gfapy.Gfa(lines, version="gfa1", vlevel=case.get("vlevel", 1))
     except Exception as e:
         raise Violation("load", "valid graph not loaded: %s: %s\n%s" % (type(e).__name__, str(e)[:300], text), type(e).__name__)
     kw = {}
@@ -172,8 +179,14 @@ def prop(case):
     for s in src:
         if s != target and G.canon_rec(segs[s]) != G.canon_rec(src[s]):
             raise Violation("bystander", "%s\nsegment %s changed" % (ctx, s))
+    # (a path through the multiplied segment is not "the rest of the graph": when its link is
+    # handed to a copy by the distribution it goes away with it)
+    def through(key):
+        return any(M.split_oriented(x)[0] in copies for x in key[1][1])
     want_paths = Counter(G.canon_rec(r) for r in recs if r.rt == "P")
-    if paths != want_paths:
+    want_by = Counter({k: v for k, v in want_paths.items() if not through(k)})
+    got_by = Counter({k: v for k, v in paths.items() if not through(k)})
+    if got_by != want_by or (paths - want_paths):
         raise Violation("bystander", "%s\npaths changed" % ctx)
     if self_link:
         # reduced oracle
@@ -357,6 +370,18 @@ def build(r):
 def st_case(draw):
     r = draw(st.randoms(use_true_random=False))
     doc, target = build(r)
+    incremental = False
+    if gen.chance(r, 0.15):
+        # a path that requires a link nobody declared: the segment carries a placeholder link
+        # (only possible in a Gfa that is built line by line)
+        others = [l[1][0] for l in doc["lines"] if l[0] == "S" and l[1][0] != target]
+        if others:
+            o = gen.choice(r, others)
+            fo, to = gen.choice(r, "+-"), gen.choice(r, "+-")
+            declared = set(M.ends_key(*l[1][:4]) for l in doc["lines"] if l[0] == "L")
+            if M.ends_key(target, fo, o, to) not in declared:
+                doc["lines"].append(["P", ["pv", "%s%s,%s%s" % (target, fo, o, to), "*"], []])
+                incremental = True
     factor = gen.choice(r, [-1, 0, 1, 2, 2, 2, 3, 3, 4])
     names = None
     if factor >= 2 and gen.chance(r, 0.3):
@@ -370,7 +395,7 @@ def st_case(draw):
             for l in doc["lines"]:
                 if l[0] == "S" and l[1][0] == target and not any(t[0] == origin.get("origin_tag", "or") for t in l[2]):
                     l[2].append([origin.get("origin_tag", "or"), "Z", "Q"])
-    return {"doc": doc, "segment": target, "factor": factor, "origin": origin,
+    return {"doc": doc, "segment": target, "factor": factor, "origin": origin, "incremental": incremental,
             "distribute": gen.choice(r, [None, None, "off", "auto", "equal", "L", "R"]), "copy_names": names,
             "by_instance": gen.chance(r, 0.3), "vlevel": gen.choice(r, [1, 1, 2, 3])}
 
